@@ -13,7 +13,7 @@ for d in sorted(glob.glob(os.path.join(ROOT, "seeded", "*"))):
     summ = re.sub(r"\s+", " ", m.get("summary", "")).replace("|", "/")
     if len(summ) > 230:
         summ = summ[:227] + "..."
-    note = re.sub(r"\s+", " ", c.get("note", "")).replace("|", "/")
+    note = re.sub(r"\s+", " ", ((c.get("now_key") or "") + ("; " + c.get("note") if c.get("note") else ""))).replace("|", "/")
     rows.append("| %s | %s | %s | %s | %s | %s |" % (m.get("id"), ", ".join(m.get("files", [])), summ, first, now, note))
 table = "\n".join(["| seed | files | change | check when it arrived | check now | caught through / what was added |", "|---|---|---|---|---|---|"] + rows)
 head = "%d seeded changes are kept; %d were missed by the check of their property when they arrived, %d are caught now (quick tier).\n\n" % (len(rows), missed_first, caught_now)
